@@ -173,6 +173,11 @@ def through_entry_points(ctx, pid, texts, failures, n_quick=400, n_thorough=6000
         if PL.canon_panic(e):
             stats["expected_panics (skipped)"] += 1
             continue
+        if not e.startswith(("asg=", "SYNTAX-ERRORS")):
+            # e.g. UNSUPPORTED-INCLUDE: the program itself includes a file that the splice left in place (the include
+            # line carries a comment, or the file does not exist) — no reference result to compare with
+            stats["no reference result (skipped)"] = stats.get("no reference result (skipped)", 0) + 1
+            continue
         f = c["features"]
         bad = None
         site = PL.canon_panic(a)
